@@ -8,13 +8,17 @@ Local Open Scope N_scope.
 (* ---- boolean equality of votes *)
 Definition hv_eqb (a b : hvote) : bool :=
   (hv_from a =? hv_from b) && (vw_root (hv_view a) =? vw_root (hv_view b)) && (vw_round (hv_view a) =? vw_round (hv_view b)) &&
-  (vw_phase (hv_view a) =? vw_phase (hv_view b)) && (hv_block a =? hv_block b) && (hv_results a =? hv_results b).
+  (vw_phase (hv_view a) =? vw_phase (hv_view b)) && (hv_block a =? hv_block b) && (hv_results a =? hv_results b) &&
+  (hv_proposer a =? hv_proposer b).
 Lemma hv_eqb_eq a b : hv_eqb a b = true <-> a = b.
 Proof.
   unfold hv_eqb. rewrite !andb_true_iff, !N.eqb_eq. split.
-  - intros [[[[[H1 H2] H3] H4] H5] H6]. destruct a as [fa [a1 a2 a3] ba sa], b as [fb [b1 b2 b3] bb sb]. simpl in *. congruence.
+  - intros [[[[[[H1 H2] H3] H4] H5] H6] H7]. destruct a as [fa [a1 a2 a3] ba sa pa], b as [fb [b1 b2 b3] bb sb pb]. simpl in *. congruence.
   - intros ->. tauto.
 Qed.
+
+(* the invariants of agreement do not look at the proposer key a vote carries *)
+Definition strip (hv : hvote) : hvote := mkHV (hv_from hv) (hv_view hv) (hv_block hv) (hv_results hv) 0.
 
 (* ---- lexicographic orders on (root, round, phase) and (root, round) *)
 Definition tle3 (R rd ph R' rd' ph' : N) : Prop := R < R' \/ (R = R' /\ (rd < rd' \/ (rd = rd' /\ ph <= ph'))).
@@ -133,7 +137,13 @@ Proof.
   split; [|exact H3]. destruct (qc_check cf0 h); congruence.
 Qed.
 
-Definition VIn (n : net) (k R rd ph b s : N) : Prop := In (mkHV k (mkView R rd ph) b s) (n_votes n).
+Definition VIn (n : net) (k R rd ph b s : N) : Prop := In (mkHV k (mkView R rd ph) b s 0) (map strip (n_votes n)).
+Lemma VIn_raw n k R rd ph b s : VIn n k R rd ph b s <-> exists pr, In (mkHV k (mkView R rd ph) b s pr) (n_votes n).
+Proof.
+  unfold VIn. rewrite in_map_iff. split.
+  - intros [[f v b0 s0 pr] [He Hin]]. unfold strip in He. simpl in He. injection He as -> -> -> ->. eauto.
+  - intros [pr H]. eexists. split; [|exact H]. reflexivity.
+Qed.
 Definition goodqc (n : net) (q : qc) (ph : N) : Prop := full q /\ vw_phase (q_view q) = ph /\ genuine n q.
 Definition goodprop (n : net) (rd ph : N) (m : lmsg) : Prop :=
   full (m_qc m) /\ genuine n (m_qc m) /\ vw_round (q_view (m_qc m)) = rd /\ vw_phase (q_view (m_qc m)) + 1 = ph /\
@@ -150,7 +160,7 @@ Qed.
 Lemma goodqc_vote n q ph k r : (ph = 4 \/ ph = 6) -> goodqc n q ph -> memb (q_signers q) k = true -> get_rep n k = Some r ->
   VIn n k (vw_root (q_view q)) (vw_round (q_view q)) ph (q_block q) (q_results q).
 Proof.
-  intros Hph [Hf [Hp Hg]] Hm Hk. unfold VIn.
+  intros Hph [Hf [Hp Hg]] Hm Hk. apply VIn_raw. exists (q_proposer q).
   assert (Hv : q_view q = mkView (vw_root (q_view q)) (vw_round (q_view q)) ph) by (destruct (q_view q); simpl in *; congruence).
   rewrite <- Hv. apply Hg.
   - now apply full_sigok.
@@ -160,7 +170,7 @@ Proof.
 Qed.
 
 (* ---- "(w, v) can still gather a PRECOMMIT quorum" *)
-Definition hasvote (n : net) (k R rd ph b s : N) : bool := existsb (hv_eqb (mkHV k (mkView R rd ph) b s)) (n_votes n).
+Definition hasvote (n : net) (k R rd ph b s : N) : bool := existsb (hv_eqb (mkHV k (mkView R rd ph) b s 0)) (map strip (n_votes n)).
 Lemma hasvote_In n k R rd ph b s : hasvote n k R rd ph b s = true <-> VIn n k R rd ph b s.
 Proof.
   unfold hasvote, VIn. rewrite existsb_exists. split.
@@ -190,17 +200,17 @@ Inductive ltrans (n : net) (i : N) (r r' : rstate) : list hvote -> Prop :=
     r_commit r' = r_commit r -> r_lock r' = Some h -> goodqc n h 4 ->
     (forall l, r_lock r = Some l -> view_less (q_view l) (q_view h) = true) ->
     ltrans n i r r' []
-| LT_pv m :
+| LT_pv m pr :
     r_root r' = r_root r -> r_round r' = r_round r -> r_phase r = 4 -> r_phase r' = 5 -> r_lock r' = r_lock r ->
     r_props r' = r_props r -> r_commit r' = r_commit r ->
     In (r_round r, 3, m) (r_props r) ->
     (forall l, r_lock r = Some l -> safe_node l m = true) ->
-    ltrans n i r r' [mkHV i (mkView (r_root r) (r_round r) 4) (q_block (m_qc m)) (q_results (m_qc m))]
-| LT_cv m :
+    ltrans n i r r' [mkHV i (mkView (r_root r) (r_round r) 4) (q_block (m_qc m)) (q_results (m_qc m)) pr]
+| LT_cv m pr :
     r_root r' = r_root r -> r_round r' = r_round r -> r_phase r = 6 -> r_phase r' = 7 -> r_lock r' = Some (m_qc m) ->
     r_props r' = r_props r -> r_commit r' = r_commit r ->
     In (r_round r, 5, m) (r_props r) -> vw_root (q_view (m_qc m)) = r_root r ->
-    ltrans n i r r' [mkHV i (mkView (r_root r) (r_round r) 6) (q_block (m_qc m)) (q_results (m_qc m))]
+    ltrans n i r r' [mkHV i (mkView (r_root r) (r_round r) 6) (q_block (m_qc m)) (q_results (m_qc m)) pr]
 | LT_commit m :
     r_root r' = r_root r -> r_round r' = r_round r -> r_phase r' = r_phase r -> r_lock r' = r_lock r ->
     r_props r' = r_props r -> In (r_round r, 7, m) (r_props r) ->
@@ -211,8 +221,18 @@ Lemma ltrans_tle n i r r' nv : ltrans n i r r' nv ->
   tle3 (r_root r) (r_round r) (r_phase r) (r_root r') (r_round r') (r_phase r').
 Proof. unfold tle3. intros H. destruct H; try assumption; lia. Qed.
 
-Lemma ltrans_from n i r r' nv hv : ltrans n i r r' nv -> In hv nv -> hv_from hv = i.
+Lemma ltrans_from n i r r' nv hv : ltrans n i r r' nv -> In hv (map strip nv) -> hv_from hv = i.
 Proof. intros H Hin. destruct H; simpl in Hin; try contradiction; destruct Hin as [<-|[]]; reflexivity. Qed.
+
+(* the votes an action adds: at most one, of the replica's current view and phase (4 or 6), and the phase then moves on *)
+Lemma ltrans_new n i r r' nv hv : ltrans n i r r' nv -> In hv nv ->
+  hv_from hv = i /\ vw_root (hv_view hv) = r_root r /\ vw_round (hv_view hv) = r_round r /\ vw_phase (hv_view hv) = r_phase r /\
+  (r_phase r = 4 \/ r_phase r = 6) /\ r_root r' = r_root r /\ r_round r' = r_round r /\ r_phase r < r_phase r' /\
+  forall hv', In hv' nv -> hv' = hv.
+Proof.
+  intros H Hin. destruct H; simpl in Hin; try contradiction; destruct Hin as [<-|[]]; simpl;
+    repeat split; auto; try lia; intros hv' [<-|[]]; reflexivity.
+Qed.
 
 Lemma ltrans_props n i r r' nv : ltrans n i r r' nv ->
   forall rd ph m, In (rd, ph, m) (r_props r') -> In (rd, ph, m) (r_props r) \/ goodprop n rd ph m.
@@ -222,11 +242,31 @@ Proof. intros H. destruct H; try assumption; intros rd ph m0 Hin; left; congruen
 Definition InvL (n : net) : Prop :=
   (forall k r rd ph m, get_rep n k = Some r -> In (rd, ph, m) (r_props r) -> goodprop n rd ph m) /\
   (forall k r b s, get_rep n k = Some r -> r_commit r = Some (b, s) ->
-     exists q, goodqc n q 6 /\ q_block q = b /\ q_results q = s).
+     exists q, goodqc n q 6 /\ q_block q = b /\ q_results q = s) /\
+  (* every vote of a correct replica is a PROPOSE or PRECOMMIT vote of a view the replica has left behind *)
+  (forall k r hv, get_rep n k = Some r -> In hv (n_votes n) -> hv_from hv = k ->
+     (vw_phase (hv_view hv) = 4 \/ vw_phase (hv_view hv) = 6) /\
+     tlt3 (vw_root (hv_view hv)) (vw_round (hv_view hv)) (vw_phase (hv_view hv)) (r_root r) (r_round r) (r_phase r)) /\
+  (* a correct replica signs at most one payload per view (root, round, phase) *)
+  (forall k r hv1 hv2, get_rep n k = Some r -> In hv1 (n_votes n) -> In hv2 (n_votes n) -> hv_from hv1 = k -> hv_from hv2 = k ->
+     hv_view hv1 = hv_view hv2 -> hv1 = hv2).
 
 Lemma InvL_step n i r r' nv : InvL n -> get_rep n i = Some r -> ltrans n i r r' nv -> InvL (upd n i r' nv).
 Proof.
-  intros [HP H5] Hi Ht. split.
+  intros [HP [H5 [HV HU]]] Hi Ht.
+  assert (HV' : forall k rk hv, get_rep (upd n i r' nv) k = Some rk -> In hv (n_votes (upd n i r' nv)) -> hv_from hv = k ->
+     (vw_phase (hv_view hv) = 4 \/ vw_phase (hv_view hv) = 6) /\
+     tlt3 (vw_root (hv_view hv)) (vw_round (hv_view hv)) (vw_phase (hv_view hv)) (r_root rk) (r_round rk) (r_phase rk)).
+  { intros k rk hv Hk Hin Hf. simpl in Hin. apply in_app_iff in Hin.
+    pose proof (ltrans_tle _ _ _ _ _ Ht) as Hle.
+    destruct (get_rep_upd_cases _ _ _ _ _ _ _ Hi Hk) as [[-> ->]|[Hne Hk']].
+    - destruct Hin as [Hin|Hin].
+      + destruct (ltrans_new _ _ _ _ _ _ Ht Hin) as [_ [E1 [E2 [E3 [E4 [E5 [E6 [E7 _]]]]]]]].
+        rewrite E1, E2, E3. split; [exact E4|]. unfold tlt3. lia.
+      + destruct (HV _ _ _ Hi Hin Hf) as [H1 H2]. split; [exact H1|]. unfold tle3, tlt3 in *. lia.
+    - destruct Hin as [Hin|Hin]; [|eapply HV; eauto].
+      destruct (ltrans_new _ _ _ _ _ _ Ht Hin) as [E0 _]. congruence. }
+  split; [|split; [|split; [exact HV'|]]].
   - intros k rk rd ph m Hk Hin. apply goodprop_mono.
     destruct (get_rep_upd_cases _ _ _ _ _ _ _ Hi Hk) as [[-> ->]|[Hne Hk']]; [|eapply HP; eauto].
     destruct (ltrans_props _ _ _ _ _ Ht _ _ _ Hin) as [H|H]; [|exact H]. eapply HP; eauto.
@@ -235,11 +275,27 @@ Proof.
                    exists q, goodqc (upd n i r' nv) q 6 /\ q_block q = b /\ q_results q = s).
     { intros k0 r0 H0 Hc0. destruct (H5 _ _ _ _ H0 Hc0) as [q [Hq Hr]]. exists q. split; [now apply goodqc_mono|exact Hr]. }
     destruct (get_rep_upd_cases _ _ _ _ _ _ _ Hi Hk) as [[-> ->]|[Hne Hk']]; [|eauto].
-    destruct Ht as [_ Hcm _ _|h _ _ _ _ Hcm _ _ _|m _ _ _ _ _ _ Hcm _ _|m _ _ _ _ _ _ Hcm _ _|m _ _ _ _ _ Hin Hcm];
+    destruct Ht as [_ Hcm _ _|h _ _ _ _ Hcm _ _ _|m pr _ _ _ _ _ _ Hcm _ _|m pr _ _ _ _ _ _ Hcm _ _|m _ _ _ _ _ Hin Hcm];
       try (rewrite Hcm in Hc; eauto).
     injection Hc as <- <-.
     destruct (HP _ _ _ _ _ Hi Hin) as [H1 [H2 [H3 [H4 H5']]]].
     exists (m_qc m). split; [|auto]. apply goodqc_mono. repeat split; auto. lia.
+  - intros k rk hv1 hv2 Hk Hin1 Hin2 Hf1 Hf2 Hvw. simpl in Hin1, Hin2. apply in_app_iff in Hin1. apply in_app_iff in Hin2.
+    assert (Hk0 : exists r0, get_rep n k = Some r0).
+    { rewrite get_rep_upd in Hk. destruct (get_rep n k); [eauto|discriminate]. }
+    destruct Hk0 as [r0 Hk0].
+    assert (Hmix : forall hva hvb, In hva nv -> In hvb (n_votes n) -> hv_from hva = k -> hv_from hvb = k ->
+                   hv_view hva = hv_view hvb -> False).
+    { intros hva hvb Ha Hb Hfa Hfb Hv.
+      destruct (ltrans_new _ _ _ _ _ _ Ht Ha) as [E0 [E1 [E2 [E3 _]]]].
+      assert (Hbi : hv_from hvb = i) by congruence.
+      destruct (HV _ _ _ Hi Hb Hbi) as [_ Hlt].
+      rewrite <- Hv, E1, E2, E3 in Hlt. unfold tlt3 in Hlt. lia. }
+    destruct Hin1 as [Hin1|Hin1], Hin2 as [Hin2|Hin2].
+    + destruct (ltrans_new _ _ _ _ _ _ Ht Hin1) as [_ [_ [_ [_ [_ [_ [_ [_ Hone]]]]]]]]. symmetry. now apply Hone.
+    + exfalso. eapply Hmix; eauto.
+    + exfalso. eapply (Hmix hv2 hv1); eauto.
+    + eapply HU; eauto.
 Qed.
 
 Hypothesis Hwrap : 2 * ptotal P < two64.
@@ -247,8 +303,6 @@ Hypothesis Hbyz : 3 * byz_power P cids < ptotal P.
 
 Record Inv (n : net) : Prop := {
   I_ids : ids n = cids;
-  I_votes : forall k r R rd ph b s, get_rep n k = Some r -> VIn n k R rd ph b s ->
-            (ph = 4 \/ ph = 6) /\ tlt3 R rd ph (r_root r) (r_round r) (r_phase r);
   I_lock : forall k r l, get_rep n k = Some r -> r_lock r = Some l -> goodqc n l 4;
   I_L : InvL n;
   I_L3 : forall k r R rd b s, get_rep n k = Some r -> VIn n k R rd 6 b s ->
@@ -257,15 +311,27 @@ Record Inv (n : net) : Prop := {
             (R = vw_root (q_view l) /\ rd = vw_round (q_view l) /\ b = q_block l /\ s = q_results l));
   I_L4 : forall k R rd b s, VIn n k R rd 6 b s ->
          exists q, goodqc n q 4 /\ vw_root (q_view q) = R /\ vw_round (q_view q) = rd /\ q_block q = b /\ q_results q = s;
-  I_U : forall k r R rd b s b' s', get_rep n k = Some r -> VIn n k R rd 6 b s -> VIn n k R rd 6 b' s' -> b = b' /\ s = s';
   I_G : forall R rd b s, PC n R rd b s -> forall k r, get_rep n k = Some r -> VIn n k R rd 6 b s ->
         forall R' rd' b' s', VIn n k R' rd' 4 b' s' -> wlt R rd R' rd' -> b' = b /\ s' = s }.
 
 Lemma I_props n : Inv n -> forall k r rd ph m, get_rep n k = Some r -> In (rd, ph, m) (r_props r) -> goodprop n rd ph m.
 Proof. intros HI. exact (proj1 (I_L n HI)). Qed.
+Lemma I_votes n : Inv n -> forall k r R rd ph b s, get_rep n k = Some r -> VIn n k R rd ph b s ->
+  (ph = 4 \/ ph = 6) /\ tlt3 R rd ph (r_root r) (r_round r) (r_phase r).
+Proof.
+  intros HI k r R rd ph b s Hk Hv. apply VIn_raw in Hv. destruct Hv as [pr Hv].
+  exact (proj1 (proj2 (proj2 (I_L n HI))) k r _ Hk Hv eq_refl).
+Qed.
+Lemma I_U n : Inv n -> forall k r R rd b s b' s', get_rep n k = Some r -> VIn n k R rd 6 b s -> VIn n k R rd 6 b' s' ->
+  b = b' /\ s = s'.
+Proof.
+  intros HI k r R rd b s b' s' Hk Hv1 Hv2. apply VIn_raw in Hv1, Hv2. destruct Hv1 as [p1 Hv1]. destruct Hv2 as [p2 Hv2].
+  pose proof (proj2 (proj2 (proj2 (I_L n HI))) k r _ _ Hk Hv1 Hv2 eq_refl eq_refl eq_refl) as E.
+  injection E as -> -> _. auto.
+Qed.
 Lemma I_L5 n : Inv n -> forall k r b s, get_rep n k = Some r -> r_commit r = Some (b, s) ->
   exists q, goodqc n q 6 /\ q_block q = b /\ q_results q = s.
-Proof. intros HI. exact (proj2 (I_L n HI)). Qed.
+Proof. intros HI. exact (proj1 (proj2 (I_L n HI))). Qed.
 
 (* two quorums share a correct replica *)
 Lemma quorum2 n f g : Inv n -> T <= wsum P f -> T <= wsum P g ->
@@ -304,8 +370,8 @@ Proof.
 Qed.
 
 Lemma VIn_upd n i r' nv k R rd ph b s :
-  VIn (upd n i r' nv) k R rd ph b s <-> In (mkHV k (mkView R rd ph) b s) nv \/ VIn n k R rd ph b s.
-Proof. unfold VIn, upd. simpl. apply in_app_iff. Qed.
+  VIn (upd n i r' nv) k R rd ph b s <-> In (mkHV k (mkView R rd ph) b s 0) (map strip nv) \/ VIn n k R rd ph b s.
+Proof. unfold VIn, upd. simpl. rewrite map_app. apply in_app_iff. Qed.
 
 Lemma PC_mono n i r r' nv R rd b s : get_rep n i = Some r -> ltrans n i r r' nv ->
   PC (upd n i r' nv) R rd b s -> PC n R rd b s.
@@ -319,7 +385,7 @@ Proof.
     destruct Hm as [Hm|Hm].
     + apply hasvote_In, VIn_upd in Hm. destruct Hm as [Hm|Hm]; [|left; now apply hasvote_In].
       right. apply notpassed_spec. unfold tle3.
-      destruct Ht; simpl in Hm; try contradiction; destruct Hm as [Hm|[]]; injection Hm as ? ? ? ?; try discriminate; lia.
+      destruct Ht; simpl in Hm; try contradiction; destruct Hm as [Hm|[]]; try discriminate; injection Hm; intros; lia.
     + right. apply notpassed_spec in Hm. apply notpassed_spec.
       pose proof (ltrans_tle _ _ _ _ _ Ht). unfold tle3 in *. lia.
   - destruct Hm as [Hm|Hm]; [|now right].
@@ -335,25 +401,11 @@ Hypothesis Hi : get_rep n i = Some r.
 Hypothesis Ht : ltrans n i r r' nv.
 Let n' := upd n i r' nv.
 
-Lemma step_votes k rk R rd ph b s : get_rep n' k = Some rk -> VIn n' k R rd ph b s ->
-  (ph = 4 \/ ph = 6) /\ tlt3 R rd ph (r_root rk) (r_round rk) (r_phase rk).
-Proof.
-  intros Hk Hv. apply VIn_upd in Hv.
-  pose proof (ltrans_tle _ _ _ _ _ Ht) as Hle.
-  destruct (get_rep_upd_cases _ _ _ _ _ _ _ Hi Hk) as [[-> ->]|[Hne Hk']].
-  - destruct Hv as [Hv|Hv].
-    + unfold tlt3. destruct Ht; simpl in Hv; try contradiction; destruct Hv as [Hv|[]]; injection Hv as ? ? ? ? ?; subst; lia.
-    + destruct (I_votes n HI _ _ _ _ _ _ _ Hi Hv) as [H1 H2]. split; [exact H1|]. unfold tle3, tlt3 in *. lia.
-  - destruct Hv as [Hv|Hv].
-    + apply (ltrans_from _ _ _ _ _ _ Ht) in Hv. simpl in Hv. congruence.
-    + eapply (I_votes n HI); eauto.
-Qed.
-
 Lemma step_lock k rk l : get_rep n' k = Some rk -> r_lock rk = Some l -> goodqc n' l 4.
 Proof.
   intros Hk Hl. apply goodqc_mono.
   destruct (get_rep_upd_cases _ _ _ _ _ _ _ Hi Hk) as [[-> ->]|[Hne Hk']]; [|eapply (I_lock n HI); eauto].
-  destruct Ht as [Hlk _ _ _|h _ _ _ _ _ Hlk Hg _|m _ _ _ _ Hlk _ _ _ _|m _ _ _ _ Hlk _ _ Hin _|m _ _ _ Hlk _ _ _].
+  destruct Ht as [Hlk _ _ _|h _ _ _ _ _ Hlk Hg _|m pr _ _ _ _ Hlk _ _ _ _|m pr _ _ _ _ Hlk _ _ Hin _|m _ _ _ Hlk _ _ _].
   - rewrite Hlk in Hl. eapply (I_lock n HI); eauto.
   - rewrite Hlk in Hl. injection Hl as <-. exact Hg.
   - rewrite Hlk in Hl. eapply (I_lock n HI); eauto.
@@ -369,7 +421,7 @@ Lemma step_L3 k rk R rd b s : get_rep n' k = Some rk -> VIn n' k R rd 6 b s ->
 Proof.
   intros Hk Hv. apply VIn_upd in Hv.
   destruct (get_rep_upd_cases _ _ _ _ _ _ _ Hi Hk) as [[-> ->]|[Hne Hk']].
-  - destruct Ht as [Hlk _ _ _|h _ _ _ _ _ Hlk Hg Hless|m _ _ _ _ Hlk _ _ _ _|m _ _ Hph _ Hlk _ _ Hin Hroot|m _ _ _ Hlk _ _ _].
+  - destruct Ht as [Hlk _ _ _|h _ _ _ _ _ Hlk Hg Hless|m pr _ _ _ _ Hlk _ _ _ _|m pr _ _ Hph _ Hlk _ _ Hin Hroot|m _ _ _ Hlk _ _ _].
     + destruct Hv as [[]|Hv]. rewrite Hlk. eapply (I_L3 n HI); eauto.
     + destruct Hv as [[]|Hv]. destruct (I_L3 n HI _ _ _ _ _ _ Hi Hv) as [l [Hl Hc]].
       exists h. split; [exact Hlk|]. left.
@@ -391,31 +443,11 @@ Lemma step_L4 k R rd b s : VIn n' k R rd 6 b s ->
   exists q, goodqc n' q 4 /\ vw_root (q_view q) = R /\ vw_round (q_view q) = rd /\ q_block q = b /\ q_results q = s.
 Proof.
   intros Hv. apply VIn_upd in Hv. destruct Hv as [Hv|Hv].
-  - destruct Ht as [| |m|m _ _ _ _ _ _ _ Hin Hroot|m]; simpl in Hv; try contradiction; destruct Hv as [Hv|[]]; try discriminate.
+  - destruct Ht as [| |m pr|m pr _ _ _ _ _ _ _ Hin Hroot|m]; simpl in Hv; try contradiction; destruct Hv as [Hv|[]]; try discriminate.
     injection Hv; intros. subst.
     destruct (I_props n HI _ _ _ _ _ Hi Hin) as [H1 [H2 [H3 [H4 H5]]]].
     exists (m_qc m). split; [|auto]. apply goodqc_mono. repeat split; auto. lia.
   - destruct (I_L4 n HI _ _ _ _ _ Hv) as [q [Hq Hr]]. exists q. split; [now apply goodqc_mono|exact Hr].
-Qed.
-
-Lemma step_U k rk R rd b s b' s' : get_rep n' k = Some rk -> VIn n' k R rd 6 b s -> VIn n' k R rd 6 b' s' -> b = b' /\ s = s'.
-Proof.
-  intros Hk Hv1 Hv2. apply VIn_upd in Hv1. apply VIn_upd in Hv2.
-  assert (Hk0 : exists r0, get_rep n k = Some r0).
-  { unfold n' in Hk. rewrite get_rep_upd in Hk. destruct (get_rep n k); [eauto|discriminate]. }
-  destruct Hk0 as [r0 Hk0].
-  destruct Hv1 as [Hv1|Hv1], Hv2 as [Hv2|Hv2].
-  - destruct Ht; simpl in Hv1, Hv2; try contradiction; destruct Hv1 as [Hv1|[]], Hv2 as [Hv2|[]]; try discriminate.
-    injection Hv1; intros. injection Hv2; intros. subst. auto.
-  - exfalso. assert (k = i) by (apply (ltrans_from _ _ _ _ _ _ Ht) in Hv1; simpl in Hv1; congruence). subst k.
-    destruct (I_votes n HI _ _ _ _ _ _ _ Hi Hv2) as [_ Hlt].
-    destruct Ht; simpl in Hv1; try contradiction; destruct Hv1 as [Hv1|[]]; try discriminate.
-    injection Hv1; intros. subst. unfold tlt3 in Hlt. lia.
-  - exfalso. assert (k = i) by (apply (ltrans_from _ _ _ _ _ _ Ht) in Hv2; simpl in Hv2; congruence). subst k.
-    destruct (I_votes n HI _ _ _ _ _ _ _ Hi Hv1) as [_ Hlt].
-    destruct Ht; simpl in Hv2; try contradiction; destruct Hv2 as [Hv2|[]]; try discriminate.
-    injection Hv2; intros. subst. unfold tlt3 in Hlt. lia.
-  - eapply (I_U n HI); eauto.
 Qed.
 
 Lemma step_G R rd b s : PC n' R rd b s -> forall k rk, get_rep n' k = Some rk -> VIn n' k R rd 6 b s ->
@@ -436,7 +468,7 @@ Proof.
     injection Hcv; intros. subst. unfold tlt3, wlt in *. lia.
   - (* new PROPOSE vote above an old PRECOMMIT vote: SafeNode *)
     assert (k = i) by (apply (ltrans_from _ _ _ _ _ _ Ht) in Hpv; simpl in Hpv; congruence). subst k.
-    destruct Ht as [| |m _ _ _ _ _ _ _ Hin Hsafe|m|m]; simpl in Hpv; try contradiction; destruct Hpv as [Hpv|[]]; try discriminate.
+    destruct Ht as [| |m pr _ _ _ _ _ _ _ Hin Hsafe|m pr|m]; simpl in Hpv; try contradiction; destruct Hpv as [Hpv|[]]; try discriminate.
     injection Hpv; intros; subst R' rd' b' s'.
     destruct (I_L3 n HI _ _ _ _ _ _ Hi Hcv) as [l [Hl Hc]].
     pose proof (I_lock n HI _ _ _ Hi Hl) as Hgl.
@@ -460,12 +492,10 @@ Lemma Inv_step : Inv n'.
 Proof.
   constructor.
   - unfold n'. rewrite ids_upd. apply (I_ids n HI).
-  - intros. eapply step_votes; eauto.
   - intros. eapply step_lock; eauto.
   - unfold n'. eapply InvL_step; eauto. apply (I_L n HI).
   - intros. eapply step_L3; eauto.
   - intros. eapply step_L4; eauto.
-  - intros. eapply step_U; eauto.
   - intros. eapply step_G; eauto.
 Qed.
 End Step.
